@@ -8,5 +8,7 @@ CONSTANTS
   Templates = {}
   MaxPush = 0
   MaxCases = 1
+  MaxComp = 0
+  MaxMerge = 0
 POSTCONDITION TraceAccepted
 CHECK_DEADLOCK FALSE
